@@ -175,8 +175,8 @@ ParseChars(cs, ext) == LET l == Lex(cs, ext) IN IF l.ok THEN Parse(l.toks) ELSE 
 (* of that level; two adjacency checks.                                     *)
 RECURSIVE FirstIdx(_, _, _)
 FirstIdx(ts, Q(_), i) == IF i > Len(ts) THEN 0 ELSE IF Q(ts[i]) THEN i ELSE FirstIdx(ts, Q, i + 1)
-Pre(ts, i) == SubSeq(ts, 1, i - 1)
-Suf(ts, i) == SubSeq(ts, i + 1, Len(ts))
+Before(ts, i) == SubSeq(ts, 1, i - 1)
+After(ts, i) == SubSeq(ts, i + 1, Len(ts))
 RECURSIVE I1(_), I7(_), I8(_), IBin(_, _)
 I9(ts) == IF Len(ts) # 1 THEN Rej
           ELSE IF ts[1].k = "atom" THEN LeafOf(ts[1])
@@ -185,21 +185,21 @@ I9(ts) == IF Len(ts) # 1 THEN Rej
 I8(ts) == LET i == FirstIdx(ts, LAMBDA t : t.k = "un", 1) IN
           IF i = 0 THEN I9(ts)
           ELSE IF i > 1 THEN Rej          \* a unary operator must not be preceded by anything
-          ELSE LET a == I8(Suf(ts, i)) IN IF IsOk(a) THEN U1(ts[i].v, a) ELSE Rej
+          ELSE LET a == I8(After(ts, i)) IN IF IsOk(a) THEN U1(ts[i].v, a) ELSE Rej
 I7(ts) == LET i == FirstIdx(ts, IsTemp, 1) IN
           IF i = 0 THEN I8(ts)
-          ELSE LET a == I8(Pre(ts, i)) b == I7(Suf(ts, i)) IN
+          ELSE LET a == I8(Before(ts, i)) b == I7(After(ts, i)) IN
                IF IsOk(a) /\ IsOk(b) THEN B2(ts[i].v, a, b) ELSE Rej
 IBin(ts, lvl) ==   \* lvl 1..5 = iff, imp, or, xor, and
   IF lvl = 6 THEN I7(ts)
   ELSE LET i == FirstIdx(ts, LAMBDA t : t.k = "bin" /\ t.v = BoolLevels[lvl], 1) IN
        IF i = 0 THEN IBin(ts, lvl + 1)
-       ELSE LET a == IBin(Pre(ts, i), lvl + 1) b == IBin(Suf(ts, i), lvl) IN
+       ELSE LET a == IBin(Before(ts, i), lvl + 1) b == IBin(After(ts, i), lvl) IN
             IF IsOk(a) /\ IsOk(b) THEN B2(ts[i].v, a, b) ELSE Rej
 I1(ts) == LET i == FirstIdx(ts, LAMBDA t : t.k = "hyb", 1) IN
           IF i = 0 THEN IBin(ts, 1)
           ELSE IF i > 1 /\ ts[i-1].k # "hyb" THEN Rej
-          ELSE LET a == I1(Suf(ts, i)) IN IF IsOk(a) THEN H1(ts[i], a) ELSE Rej
+          ELSE LET a == I1(After(ts, i)) IN IF IsOk(a) THEN H1(ts[i], a) ELSE Rej
 ImplParse(ts) == I1(ts)
 
 (* ------------------------------------------------------ Render / Height *)
